@@ -112,7 +112,7 @@ theorem C16_never_fails_tx (p : Prefix) (e r : Bytes) (hp : wfPrefix p) (he : e.
     vec sizes.u8 u8 (encVarint e.length ++ e ++ r) = some (e, r) := by
   obtain ⟨hv, hu, hi, ho, _⟩ := hp
   have hlt : e.length < 2^64 := Nat.lt_of_le_of_lt he CAP_lt
-  have hcap : e.length * sizes.u8 ≤ CAP := by simpa [sizes] using he
+  have hcap : e.length * sizes.u8 ≤ CAP := by simpa [sizes, Gen.sizes] using he
   constructor
   · exact complete_prefix { p with extra := e } r ⟨hv, hu, hi, ho, ⟨fun _ _ => trivial, hcap, hlt⟩⟩
   · have := complete_vec sizes.u8 (fun _ => True) (fun b => [b]) u8 complete_u8 e r (fun _ _ => trivial) hcap hlt
@@ -126,7 +126,7 @@ theorem C16_never_fails_tx (p : Prefix) (e r : Bytes) (hp : wfPrefix p) (he : e.
 example : WFSeq (fun _ => true)
     [.txPub (List.replicate 32 7), .padding 255, .nonce [1, 2, 3], .mergeMining 300 (List.replicate 32 9),
      .addKeys [List.replicate 32 1, List.replicate 32 2], .minerGate [], .padding 3] := by
-  simp [WFSeq, WFField, ShortPad, sizes, CAP, Gen.CAP]
+  simp [WFSeq, WFField, ShortPad, sizes, Gen.sizes, CAP, Gen.CAP]
 
 example : tryParse (fun _ => true) [0x02, 0x01, 0xaa, 0x00, 0x00] = ⟨false, [.nonce [0xaa], .padding 1], [.nonce [0xaa], .padding 1]⟩ := by
   decide
